@@ -246,8 +246,19 @@ def check_session(ctx, model, case, origin="gen"):
     small = shrink_session(model, case, mis)
     mis2, _ = eval_session(model, small)
     mis2 = mis2 or mis
+    def around(c):
+        # the property oracle at the shrunk history, at the original one, and at the shrunk history followed by a
+        # pause and one more iteration (exposes state left behind by solve, e.g. a timer that keeps running)
+        probe = dict(c, ops=list(c["ops"]) + [{"op": "tick", "d": 3}, {"op": "solve", "maxiter": 1, "cb": False}],
+                     step_ticks=list(c["step_ticks"]) + [1, 1], cb_ticks=list(c["cb_ticks"]) + [1, 1])
+        for cand in (c, case, probe):
+            r = session_oracle(cand)
+            if r is not None:
+                return r
+        return None
+
     ctx.disagree("driver.session", small, {"what": mis2["what"], "op_index": mis2["op_index"], "value": mis2["impl"]},
-                 {"what": mis2["what"], "value": mis2["model"]}, oracle=session_oracle)
+                 {"what": mis2["what"], "value": mis2["model"]}, oracle=around)
     return False
 
 
